@@ -277,8 +277,11 @@ class CallMixin:
             if fname in ("all", "any", "sum") and node.args and isinstance(node.args[0], ast.GeneratorExp) and fname not in st.env:
                 yield from self.quantified(fname, node.args[0], st, node.args[1:])
                 return
+            if fname in ("min", "max") and len(node.args) == 1 and not node.keywords and isinstance(node.args[0], ast.GeneratorExp) and fname not in st.env:
+                yield from self.minmax_gen(fname, node.args[0], st)
+                return
             if fname in ("min", "max") and node.args and isinstance(node.args[0], ast.GeneratorExp):
-                raise Unsupported("min/max over a generator expression")
+                raise Unsupported("min/max over a generator expression with key/default")
         for f, s in self.ev(node.func, st):
             if isinstance(f, Exc):
                 yield f, s
@@ -804,12 +807,29 @@ class CallMixin:
             conds.append(self.truthy(o[0][0], o[0][1]))
             sub = o[0][1]
         vals = []
+        self._comp_excs = []
         for en in elt_nodes:
             o = list(self.ev(en, sub))
-            if len(o) != 1 or isinstance(o[0][0], Exc):
-                raise Unsupported(f"comprehension element forks / may raise @{getattr(en, 'lineno', '?')}")
-            vals.append(o[0][0])
-            sub = o[0][1]
+            normal = [x for x in o if not isinstance(x[0], Exc)]
+            if len(normal) > 1:
+                # several normal paths (an inlined helper with an `if`): if-convert scalar results
+                base = len(sub.pc)
+                vs_ = [self.deref(x[0], x[1]) for x in normal]
+                if all(isinstance(v_, V) and v_.sort == vs_[0].sort and v_.sort.kind in ("int", "bool", "real", "opt") for v_ in vs_):
+                    conds_ = [z3.And(*x[1].pc[base:]) if len(x[1].pc) > base else z3.BoolVal(True) for x in normal]
+                    t_ = vs_[-1].t
+                    for c_, v_ in zip(reversed(conds_[:-1]), reversed(vs_[:-1])):
+                        t_ = z3.If(c_, v_.t, t_)
+                    merged = sub.copy()
+                    merged.assume(z3.Or(*conds_))
+                    normal = [(V(vs_[0].sort, t_), merged)]
+            if len(normal) != 1:
+                raise Unsupported(f"comprehension element forks @{getattr(en, 'lineno', '?')}")
+            # an element whose evaluation may raise (a callee with a `raises` clause): the comprehension as a whole then
+            # either completes with every element normal, or raises; the exceptional outcomes are handed to the caller
+            self._comp_excs.extend(x[0] for x in o if isinstance(x[0], Exc))
+            vals.append(normal[0][0])
+            sub = normal[0][1]
         self._comp_iter = it
         self._comp_start, self._comp_range = start_mark, crange
         return k, (it.length if (it is not None and crange is None) else None), vals, conds, sub, s
@@ -873,9 +893,17 @@ class CallMixin:
             yield v, s
 
     def _ev_ListComp(self, node, st):
+        pre = st.copy()
         k, n, vals, conds, sub, s = self._comp_body(node, [node.elt], st)
         if n is None:
             raise Unsupported("comprehension over a dict")
+        for e in self._comp_excs:
+            if self.spec_mode:
+                raise Unsupported("comprehension element may raise inside a specification")
+            # raised at some element: the state is the one before the comprehension (the callee's frame is empty or
+            # checked separately; a callee with declared effects is rejected)
+            yield e, pre.copy()
+        self._comp_excs = []
         if conds:
             yield from self.filtered_comp(k, n, vals[0], conds, sub, s)
             return
@@ -888,6 +916,12 @@ class CallMixin:
         body_facts = sub.pc[len(s.pc) + 1:]
         term, *body_facts = skolemize(k, self._comp_start, [term] + list(body_facts))
         s.assume(z3.ForAll([k], z3.Implies(z3.And(0 <= k, k < n), z3.And(arr[k] == term, *body_facts)), patterns=[arr[k]]))
+        if elem_sort == INT and not self.bv:
+            lin = linear_sum(term, k, n)
+            if lin is not None:
+                # sum linearity (lemma: induction on n, step checked by lemmalib): the sum of a list whose elements are a
+                # linear combination of array reads at the same index is that combination of the arrays' sums
+                s.assume(z3.Implies(n >= 0, seqs.psum(arr, z3.simplify(n)) - seqs.psum(arr, 0) == lin))
         s.heap.update({r: o for r, o in sub.heap.items() if r not in s.heap})
         yield self.box_list(seqs.view(arr, z3.IntVal(0), z3.simplify(n), elem_sort), s), s
 
@@ -902,9 +936,21 @@ class CallMixin:
         body_facts = sub.pc[len(s.pc) + 1:]
         term, cond, *body_facts = skolemize(k, self._comp_start, [term, cond] + list(body_facts))
         arr = z3.Const(fresh_name("fcomp"), z3.ArraySort(z3.IntSort(), ez))
-        m = z3.Int(fresh_name("fcomp.len"))
-        src = z3.Function(fresh_name("fsrc"), z3.IntSort(), z3.IntSort())
-        dst = z3.Function(fresh_name("fdst"), z3.IntSort(), z3.IntSort())
+        # the selection (length and index maps) is a function of the filter and the range alone: two comprehensions with
+        # the same filter over the same range share it (so `[f(x) for x in xs if c(x)]` and `[g(x) for x in xs if c(x)]`
+        # have the same length and corresponding elements)
+        K0 = z3.Int("k!canon")
+        fkey = (z3.substitute(cond, (k, K0)).sexpr(), z3.simplify(n).sexpr())
+        memo = getattr(self, "_filter_memo", None)
+        if memo is None:
+            memo = self._filter_memo = {}
+        if fkey in memo:
+            m, src, dst = memo[fkey]
+        else:
+            m = z3.Int(fresh_name("fcomp.len"))
+            src = z3.Function(fresh_name("fsrc"), z3.IntSort(), z3.IntSort())
+            dst = z3.Function(fresh_name("fdst"), z3.IntSort(), z3.IntSort())
+            memo[fkey] = (m, src, dst)
         j, j2 = z3.Int(fresh_name("fj")), z3.Int(fresh_name("fj2"))
         s.assume(z3.And(0 <= m, m <= n))
         f_at = lambda idx: z3.substitute(term, (k, idx))
@@ -926,6 +972,32 @@ class CallMixin:
         ast.copy_location(as_list, node)
         for v, s in self.ev_ListComp(as_list, st):
             yield v, s
+
+    def minmax_gen(self, fname, gen, st):
+        """max(e for x in it if c) / min(...): the result m bounds every selected element and is one of them (witness
+        index); ValueError when nothing is selected (built-in contract of max/min on an empty iterable)."""
+        k, n, vals, conds, sub, s = self._comp_body(gen, [gen.elt], st)
+        if n is None:
+            raise Unsupported("min/max over a dict or a direct range")
+        val = self.deref(vals[0], sub)
+        if not (isinstance(val, V) and val.sort.kind in ("int", "bool", "real")):
+            raise Unsupported("min/max of non-numbers")
+        is_real = val.sort.kind == "real"
+        term = val.t if is_real else self.to_mathint(self.as_int(val))
+        rng = z3.And(0 <= k, k < n, *conds)
+        body_facts = list(sub.pc[len(s.pc) + 1:])
+        term, rng, *body_facts = skolemize(k, self._comp_start, [term, rng] + body_facts)
+        sel = z3.And(rng, *body_facts)
+        w = z3.Int(fresh_name("mmw"))
+        at = lambda t: z3.substitute(t, (k, w))
+        for e, s2 in self.guard(s, z3.Exists([k], sel), "ValueError", f"{fname}() of an empty selection"):
+            if e is not None:
+                yield e, s2
+                continue
+            m = z3.Real(fresh_name(fname)) if is_real else z3.Int(fresh_name(fname))
+            s2.assume(z3.ForAll([k], z3.Implies(sel, (term <= m) if fname == "max" else (term >= m))))
+            s2.assume(z3.And(at(sel), at(term) == m))
+            yield (V(REAL, m) if is_real else V(INT, self.from_mathint(m))), s2
 
     def quantified(self, fname, gen, st, extra_args):
         self._comp_direct = fname in ("all", "any")
@@ -1044,6 +1116,50 @@ class CallMixin:
             if not _mentions_var(lo, k) and a.sort() == seqs.IntArr:
                 return seqs.psum(a, z3.simplify(lo + n)) - seqs.psum(a, lo)
         return None
+
+
+def linear_sum(term, k, n):
+    """term (an Int term in the bound index k) as  sum_i coef_i * A_i[k + c_i] + d  ->  the corresponding combination of
+    prefix-sum differences over 0..n, or None when the term has another shape"""
+    t = z3.simplify(term)
+    parts = []  # (coef, array, offset) ; const
+
+    def walk(x, coef):
+        if z3.is_int_value(x):
+            return [("const", coef * x.as_long())]
+        if z3.is_select(x) and x.arg(0).sort() == seqs.IntArr:
+            off = z3.simplify(x.arg(1) - k)
+            if _mentions_var(off, k) or _mentions_var(x.arg(0), k):
+                return None
+            return [("sel", coef, x.arg(0), off)]
+        if z3.is_add(x):
+            out = []
+            for c in x.children():
+                r = walk(c, coef)
+                if r is None:
+                    return None
+                out += r
+            return out
+        if z3.is_sub(x) and x.num_args() == 2:
+            a, b = walk(x.arg(0), coef), walk(x.arg(1), -coef)
+            return None if a is None or b is None else a + b
+        if z3.is_mul(x) and x.num_args() == 2 and z3.is_int_value(x.arg(0)):
+            return walk(x.arg(1), coef * x.arg(0).as_long())
+        if z3.is_app(x) and x.decl().kind() == z3.Z3_OP_UMINUS:
+            return walk(x.arg(0), -coef)
+        return None
+
+    r = walk(t, 1)
+    if r is None or not any(p[0] == "sel" for p in r) or len(r) < 2:
+        return None
+    total = z3.IntVal(0)
+    for p in r:
+        if p[0] == "const":
+            total = total + p[1] * n
+        else:
+            _, coef, a, off = p
+            total = total + coef * (seqs.psum(a, z3.simplify(off + n)) - seqs.psum(a, off))
+    return z3.simplify(total)
 
 
 def fresh_mark() -> int:
